@@ -1,6 +1,7 @@
 package sim
 
 import (
+	"strconv"
 	"context"
 	"fmt"
 	"math/rand"
@@ -209,6 +210,15 @@ func executeOne(t *testing.T, sc *Scenario, keepLog bool) (out *Outcome) {
 	out = &Outcome{Sc: sc}
 	start := time.Now()
 	before := socketFDs()
+	if sc.Knobs.LocalPort > 0 && len(sc.Listeners) == 0 {
+		const f = "/proc/sys/net/ipv4/ip_local_port_range"
+		if old, err := os.ReadFile(f); err == nil {
+			v := strconv.Itoa(sc.Knobs.LocalPort)
+			if os.WriteFile(f, []byte(v+" "+v), 0o644) == nil {
+				defer os.WriteFile(f, old, 0o644)
+			}
+		}
+	}
 	defer func() {
 		for k := range socketFDs() {
 			if !before[k] {
